@@ -21,35 +21,49 @@ def _slot(root):
     return d
 
 
-def observe(binary, root, src, paths=("run", "exec"), timeout=10, trace=False):
-    """Run one single-module source through the requested paths. Returns list of observation dicts."""
+def observe(binary, root, src, paths=("run", "exec"), timeout=10, trace=False, files=None, entry="main"):
+    """Run one program (single source `src`, or a project `files` name->source with entry module)
+    through the requested paths. Returns list of observation dicts."""
     d = _slot(root)
     for f in d.iterdir():
         if f.is_file():
             f.unlink()
-    (d / "main.ms").write_text(src)
+    if files is None:
+        files = {"main": src}
+    for name, text in files.items():
+        (d / f"{name}.ms").write_text(text)
     obs = []
     compile_rejected = False
     for p in paths:
+        env = {}
+        tr = d / f"{p}.trace.ndjson"
+        if trace:
+            env = dict(MSCRIPT_VERIF_TRACE=str(tr), MSCRIPT_VERIF_TRACE_INS="0")
+        for f in d.glob("*.mmm"):
+            f.unlink()
         if p == "run":
-            r = C.run_proc([binary, "run", "main.ms", "-q"], cwd=d, timeout=timeout)
+            r = C.run_proc([binary, "run", f"{entry}.ms", "-q"], cwd=d, timeout=timeout, env=env)
         elif p == "exec":
-            rc = C.run_proc([binary, "compile", "main.ms", "--quick"], cwd=d, timeout=timeout)
+            rc = C.run_proc([binary, "compile", f"{entry}.ms", "--quick"], cwd=d, timeout=timeout)
             if rc["exit"] != 0 or rc["timeout"]:
                 r = rc
-                r["err"] = r["err"] if "Did not compile" in r["err"] or r["exit"] != 1 else r["err"]
             else:
-                r = C.run_proc([binary, "execute", "main.mmm"], cwd=d, timeout=timeout)
+                r = C.run_proc([binary, "execute", f"{entry}.mmm"], cwd=d, timeout=timeout, env=env)
         else:
             raise ValueError(p)
         fclass, panic = classify.classify(r)
         m = re.search(r"([\w./-]+\.ms):(\d+):(\d+)", r["err"]) if fclass in ("nil", "assert") else None
         if fclass == "compile":
             compile_rejected = True
+        events = []
+        if trace and tr.exists():
+            from . import corpus
+            events = corpus.read_ndjson(tr)
+            tr.unlink()
         obs.append(dict(path=p, exit=r["exit"] if not r["timeout"] else 124, out=classify.out_lines(r["out"]) if fclass != "compile" else [],
                         fclass=fclass, panic=panic, err=C.strip_ansi(r["err"])[-1500:],
                         posfile=m.group(1) if m else "", posline=int(m.group(2)) if m else 0, poscol=int(m.group(3)) if m else 0,
-                        diag=C.strip_ansi(r["out"])[-1500:] if fclass == "compile" else ""))
+                        diag=C.strip_ansi(r["out"])[-1500:] if fclass == "compile" else "", events=events))
     return obs, compile_rejected
 
 
@@ -72,14 +86,22 @@ def expect_pos(src):
     return out
 
 
-def run_cases(binary, work, cases, paths=("run", "exec"), tlc_workers=12, tlc_timeout=3000, chunk=40000):
+def run_cases(binary, work, cases, paths=("run", "exec"), tlc_workers=12, tlc_timeout=3000, chunk=40000, trace=False):
     """cases: list of dict(id, prog, ...). Adds 'src', 'obs', 'rejected'. Returns (disagreements, skips)."""
     work = Path(work)
     root = C.fresh_dir(work / "slots")
 
     def one(c):
-        src = render.program(json.loads(json.dumps(c["prog"]["body"])))
-        obs, rej = observe(binary, root, src, paths)
+        if "mods" in c["prog"]:
+            files = {m["name"]: render.program(json.loads(json.dumps(m["body"]))) for m in c["prog"]["mods"]}
+            entry = c["prog"]["mods"][c["prog"]["entry"] - 1]["name"]
+            src = "".join(f"### {n}.ms\n{t}" for n, t in files.items())
+            obs, rej = observe(binary, root, src, paths, trace=trace, files=files, entry=entry)
+            c["files"] = {f"{n}.ms": t for n, t in files.items()}
+        else:
+            src = render.program(json.loads(json.dumps(c["prog"]["body"])))
+            obs, rej = observe(binary, root, src, paths, trace=trace)
+            c["files"] = {"main.ms": src}
         c["src"], c["obs"], c["rejected"] = src, obs, rej
         c["expect"] = expect_pos(src)
         return c
